@@ -17,6 +17,7 @@ import (
 // C11 at the keeper boundary: votes submitted through the real msg server are pooled under an
 // attestation only if the voter's claim agrees with the STORED claim (the one that is executed) in
 // every hashed field, and every attestation's store key is the hash of its own stored claim.
+// The histories of this file use one chain id throughout; c11_chain_test.go (run from here) varies the chain id.
 
 func c11kFields(c skytypes.EthereumClaim) string {
 	switch m := c.(type) {
@@ -113,5 +114,9 @@ func TestC11Keeper(t *testing.T) {
 			r.Op(fmt.Sprintf("nonce %d %d", n, kind), "consistent")
 		}
 		r.Case(strings.Join(ops, ";"), nonTrivial)
+		// the chain clause: histories in which the chain id varies between the claims (c11_chain_test.go)
+		for k := 0; k < 3; k++ {
+			c11ChainCase(r, newSkyEnv(t, 1))
+		}
 	}
 }
